@@ -27,7 +27,7 @@ def entry_points(ci, include_private=(), exclude=()):
     return [seen[k] for k in sorted(seen)]
 
 
-def coherence(ctx, rule, ci, edges, entries=None, pseudo=None, extra=None, param_alias=None, equal_atoms=(), rel=None, type_assumptions=None, nonnull_methods=(), assume=None, max_report_paths=3):
+def coherence(ctx, rule, ci, edges, entries=None, pseudo=None, extra=None, param_alias=None, equal_atoms=(), rel=None, type_assumptions=None, nonnull_methods=(), assume=None, mutating_calls=None, init_ver=None, note_entries=(), max_report_paths=3):
     """Check every normal-exit path of every entry point against the dependency edges.
 
     param_alias: {param name: field}  a value computed from that parameter counts as computed from the field
@@ -39,13 +39,14 @@ def coherence(ctx, rule, ci, edges, entries=None, pseudo=None, extra=None, param
     ex = paths.Explorer(prog, ci, pseudo=pseudo, extra_self_funcs=extra)
     ex.type_assumptions = dict(type_assumptions or {})
     ex.nonnull_methods = set(nonnull_methods)
+    ex.mutating_calls = dict(mutating_calls or {})
     entries = entries if entries is not None else entry_points(ci, exclude=("__init__",))
     param_alias = param_alias or {}
     total_paths = 0
     found = {}
     fields_written = set()
     for qual, fn, owner in entries:
-        res = ex.explore(fn, qual, assume=assume)
+        res = ex.explore(fn, qual, assume=assume, init_ver=init_ver)
         normal = [p for p, k in res if k == "normal"]
         total_paths += len(res)
         site = "%s::%s" % (rel, qual)
@@ -58,6 +59,11 @@ def coherence(ctx, rule, ci, edges, entries=None, pseudo=None, extra=None, param
                 sver = p.version(e.source)
                 if sver == "entry":
                     continue  # source untouched on this path: nothing can have become stale
+                if sver == "changed-before-call" and e.source in (init_ver or {}):
+                    # refresh entry point: the source may have been modified in place by the caller beforehand
+                    tags0 = p.tags.get(e.derived)
+                    if tags0 is not None and any(s_ == e.source for (s_, v_) in tags0):
+                        continue
                 tags = p.tags.get(e.derived)
                 ok = False
                 if tags is None:
@@ -106,7 +112,7 @@ def coherence(ctx, rule, ci, edges, entries=None, pseudo=None, extra=None, param
             ex_paths.append(paths.describe(p))
         e = [x for x in edges if x.derived == d and x.source == s][0]
         msg = "%s is left stale: %s is written (`%s`) and %s is not recomputed from it before a normal exit on %d path(s); e.g. [%s]" % (d, s, wtext[:70], d, len(ps), ex_paths[0])
-        if e.note_only:
+        if e.note_only or qual in note_entries:
             ctx.note(rule, "%s::%s: %s (%s)" % (rel, qual, msg, e.reason))
         else:
             ctx.violation(rule, "%s::%s" % (rel, qual), msg, "%s<-%s after `%s`" % (d, s, wtext))
